@@ -170,6 +170,14 @@ IsZeroD(d) == d[1] % 128 = 0 /\ \A i \in 2..8 : d[i] = 0
 FloatEq(a, b) == IF IsNaN(a) \/ IsNaN(b) THEN FALSE
                  ELSE IF IsZeroD(a) /\ IsZeroD(b) THEN TRUE ELSE a = b
 
+(***************************************************************************)
+(* TLC evaluates [x \in S |-> e] lazily and re-evaluates e at every          *)
+(* application.  Mat / MatF force the function into an explicit tuple /      *)
+(* record once; they are identities as far as TLA+ is concerned.             *)
+(***************************************************************************)
+Mat(f)  == f \o <<>>
+MatF(f) == f @@ <<>>
+
 \* concatenation of a sequence of sequences (linear accumulate)
 RECURSIVE FlatAcc(_, _, _)
 FlatAcc(ss, i, acc) == IF i > Len(ss) THEN acc ELSE FlatAcc(ss, i + 1, acc \o ss[i])
